@@ -17,7 +17,7 @@ RULE = ("edges (1-3 dim, nasty spacings) x coordinates (edges, float neighbours,
         "far away, +-inf) x exact weights; oracle bisect_right-1, single-cell delta, "
         "exact weight conservation.")
 ASSUMPTIONS = [
-    "edges are strictly increasing finite numbers with |edge| <= 1e300 (no overflow of the span); no NaN coordinates",
+    "edges are strictly increasing finite numbers whose span max - min is finite (magnitudes up to 1.7e308 with one sign, up to 1e300 with both); no NaN coordinates",
     "weights are ints, Fractions or small dyadic floats so that every sum is exact",
 ]
 
@@ -29,8 +29,17 @@ MAGS = [0, 1e-300, -1e-300, 5e-324, 1e-10, -1e-10, 1, -1, 1e10, -1e10, 1e300,
 @st.composite
 def axis_edges(draw, max_edges=12):
     k = draw(st.integers(2, max_edges))
-    mode = draw(st.integers(0, 6))
-    if mode == 0:
+    mode = draw(st.integers(0, 7))
+    if mode == 7:
+        # magnitudes close to the largest float, one sign (the span max - min stays finite):
+        # products like n_bins * (value - min) overflow although every difference is finite
+        sgn = draw(st.sampled_from([1, -1]))
+        s = set(sgn * x for x in draw(st.sets(st.one_of(
+            st.floats(1e306, 1.7e308, allow_nan=False), st.sampled_from([1e307, 8.9e307, 9e307, 1e308, 1.5e308, 1.7e308])),
+            min_size=2, max_size=k)))
+        if draw(st.booleans()):
+            s.add(0)
+    elif mode == 0:
         s = draw(st.sets(st.integers(-20, 20), min_size=2, max_size=k))
     elif mode == 1:
         s = draw(st.sets(st.floats(-1e3, 1e3, allow_nan=False), min_size=2, max_size=k))
